@@ -187,11 +187,20 @@ func (h *HTTP) request(ctx *gin.Context) {
 	//       the value might change depending
 	//       on the redirector setup
 
+	// a name may be configured more than once (Set-Cookie): every line is sent. the first
+	// line of a name replaces what the engine may have put there, the others are added
+	var ConfiguredOnce = make(map[string]bool)
 	for _, Header := range h.Config.Response.Headers {
 		// the value is everything after the first colon (dates, URLs contain colons too)
 		var hdr = strings.SplitN(Header, ":", 2)
 		if len(hdr) > 1 {
-			ctx.Header(strings.TrimSpace(hdr[0]), strings.TrimSpace(hdr[1]))
+			var Name = http.CanonicalHeaderKey(strings.TrimSpace(hdr[0]))
+			if !ConfiguredOnce[Name] {
+				ConfiguredOnce[Name] = true
+				ctx.Header(Name, strings.TrimSpace(hdr[1]))
+			} else {
+				ctx.Writer.Header().Add(Name, strings.TrimSpace(hdr[1]))
+			}
 		}
 	}
 
